@@ -29,7 +29,7 @@ STUBS = [
     'WebSocketDisconnected',
 ]
 OUTSIDE = ['more than 3 messages / 10 scheduling decisions', 'event loops with non-FIFO policies', 'capacity 0 (unbuffered mode: C17)']
-BUDGET = {'quick': 300, 'thorough': 2400}
+BUDGET = {'quick': 300, 'thorough': 900}
 
 OPS = {0: 'receive', 1: 'send', 2: 'close', 3: 'yield', 4: 'receive-then-cancel'}
 
